@@ -74,6 +74,24 @@ def gen_workload(rng, mode):
                     for sj, sq in enumerate(specs):
                         if sj != si and sq['parser'] == 'xml':
                             anchors.append((sj, len(keys) - 1))
+    with_inputs = [si for si, sp in enumerate(specs) if '<input' in sp['markup'] and sp['parser'] != 'xml']
+    if with_inputs and rng.random() < 0.4:
+        # form controls whose type/name the API set to a non-string (the HTML-only pseudo-classes may raise on them: a
+        # natural exception) + namespace-qualified questions about form state, asked on every document with controls
+        si = rng.choice(with_inputs)
+        specs[si]['mut'] = list(specs[si].get('mut') or []) + [[rng.randint(1, 60) | 1, rng.choice(['type', 'type', 'name']),
+                                                                rng.choice(gen.ODD_VALUES)]]
+        for _ in range(rng.randint(1, 2)):
+            pat, ns = rng.choice(gen.HTML_NS_POOL)
+            keys.append({'pattern': pat, 'ns': ns, 'custom': None, 'flags': 0, 'uses_scope': False, 'special': 0})
+            for sj in with_inputs:
+                anchors.append((sj, len(keys) - 1))
+    for sp in specs:
+        if sp['parser'] == 'xml' and '<input' in sp['markup'] and rng.random() < 0.3:
+            # XHTML/XML form controls with an attribute the API set to a non-string: the HTML-only pseudo-classes may
+            # raise on them (a natural exception) in the middle of a namespace-qualified selector
+            sp['mut'] = list(sp.get('mut') or []) + [[rng.randint(1, 60) | 1, rng.choice(['type', 'type', 'name']),
+                                                      rng.choice(gen.ODD_VALUES)]]
     if any(sp['parser'] == 'xml' or sp['markup'].startswith('<?xml') for sp in specs):
         for _ in range(rng.randint(1, 4)):
             pat, ns = rng.choice(gen.XML_STATEFUL_POOL)
@@ -176,6 +194,11 @@ def gen_workload(rng, mode):
                 history.append({'op': 'edit', 'doc': s, 'edit': e})
             if ask is not None:
                 history.append(dict(ask, o2=True, target=-1) if edits[-1][0] == 'detach' else dict(ask, o2=True))
+                if len(cur) > 1 and rng.random() < 0.4:
+                    # and the same selector, right afterwards, on another loaded document (if the question about the
+                    # edited tree failed part-way, nothing of that may show here)
+                    history.append(dict(ask, doc=(s + 1 + rng.randrange(len(cur) - 1)) % len(cur), target=-1))
+                    calls.append(len(history) - 1)
             prev = [c for c in calls if history[c].get('doc') == s]
             if prev and rng.random() < 0.6:
                 op = dict(history[rng.choice(prev)])
